@@ -54,6 +54,8 @@ mut("service-new-batch-wrong-height", "modules/service/abci.go",
     "\tk.IterateNewRequestBatch(ctx, ctx.BlockHeight(), newRequestBatchHandler)", "\tk.IterateNewRequestBatch(ctx, ctx.BlockHeight()-1, newRequestBatchHandler)")
 mut("service-start-always-enqueues", "modules/service/keeper/invocation.go",
     "\tif !k.HasRequestBatchExpiration(ctx, requestContextID) &&\n\t\t!k.HasNewRequestBatch(ctx, requestContextID) {", "\tif true {")
+mut("service-start-ignores-new-batch-entry", "modules/service/keeper/invocation.go",
+    "\tif !k.HasRequestBatchExpiration(ctx, requestContextID) &&\n\t\t!k.HasNewRequestBatch(ctx, requestContextID) {", "\tif !k.HasRequestBatchExpiration(ctx, requestContextID) {")
 mut("service-next-batch-in-the-past", "modules/service/abci.go",
     "\t\t\t\t\tctx.BlockHeight()-requestContext.Timeout+int64(\n\t\t\t\t\t\trequestContext.RepeatedFrequency,\n\t\t\t\t\t),", "\t\t\t\t\tctx.BlockHeight()-requestContext.Timeout,")
 mut("service-callback-always-nil-error", "modules/service/keeper/invocation.go",
